@@ -39,7 +39,8 @@ BASE_CALLS = {'parse_stats'}    # called by the base item parse_chunk: needed in
 SKIP = {'parse_chunk'}          # proved in the base unit (c01_parser) against the contract of parse_stats
 
 STD_REQ = 'ginv(old(p))'
-STD_ENS = 'ginv(final(p)), gstep(old(p), final(p))'
+# one clause per line, each with its property label (failed obligations are reported under the label of the clause line)
+STD_ENS = 'ginv(final(p)) /*@C01.grammar.keeps-inv*/,\n        gstep(old(p), final(p)) /*@C02.grammar.step*/'
 
 
 @R.rule('body-unimplemented')
